@@ -252,8 +252,8 @@ func cmdCheck(args []string) int {
 			continue
 		}
 		if fc.IsTable {
-			if tier != "thorough" && len(fc.QuickKeys) > 0 {
-				quickSubsets = append(quickSubsets, fmt.Sprintf("%s: quick tier verifies %d of %d keys (all keys in the thorough tier)", fc.Name, len(fc.QuickKeys), len(fc.Keys)))
+			if (tier != "thorough" || os.Getenv("GOVC_ALLKEYS") != "1") && len(fc.QuickKeys) > 0 {
+				quickSubsets = append(quickSubsets, fmt.Sprintf("%s: this run verifies %d of %d keys (all keys: thorough tier with GOVC_ALLKEYS=1, about an hour)", fc.Name, len(fc.QuickKeys), len(fc.Keys)))
 				fc.Keys = fc.QuickKeys
 			}
 			insts, err := ExpandTable(p, db, fc)
